@@ -24,7 +24,7 @@ import warnings
 warnings.simplefilter('ignore')
 
 import pgpy
-from pgpy.constants import KeyFlags, SignatureType
+from pgpy.constants import KeyFlags, SignatureType, SymmetricKeyAlgorithm, HashAlgorithm
 from pgpy.errors import PGPError
 
 import specs.indep as indep
@@ -37,7 +37,7 @@ EXPIRIES = [None, datetime.timedelta(days=4000), datetime.timedelta(days=5000, s
 
 OPS_QUICK = ['add_uid', 'add_sub_sig', 'add_sub_enc', 'recert', 'rebind', 'third', 'revoke_uid', 'revoke_sub', 'revoke_key',
              'del_uid', 'protect', 'unlock_sign', 'pubkey_hold', 'roundtrip', 'copy']
-OPS_ALL = OPS_QUICK + ['add_ua', 'third_exportable', 'revoker', 'readd_uid', 'pubkey', 'pubkey_release']
+OPS_ALL = OPS_QUICK + ['add_ua', 'third_exportable', 'revoker', 'readd_uid', 'pubkey', 'pubkey_release', 'add_locked_sub']
 
 
 class Hist(object):
@@ -106,6 +106,23 @@ class Hist(object):
                 b.add_sub('ed25519', t, {KeyFlags.Sign})
             else:
                 b.add_sub('cv25519', t, {KeyFlags.EncryptCommunications, KeyFlags.EncryptStorage})
+        elif op == 'add_locked_sub':
+            # a subkey of a signing-capable algorithm that cannot cross-sign (protected, read from its export, not unlocked) is offered with a
+            # usage that does not contain Sign: no binding without the embedded cross-signature - the addition is refused and leaves the
+            # key as it was
+            sk = tpk.new_key('ed25519', t, slot=2)
+            sk.protect('subkey passphrase', SymmetricKeyAlgorithm.AES128, HashAlgorithm.SHA256)
+            locked = pgpy.PGPKey.from_blob(bytes(sk))[0]
+            before, nsub = bytes(b.k), len(b.k.subkeys)
+            try:
+                b.unlocked(lambda: b.k.add_subkey(locked, usage={KeyFlags.Authentication}, created=t))
+                self.problems.append('a locked signing-capable subkey was bound without its cross-signature (usage Authentication)')
+            except PGPError:
+                pass
+            if len(b.k.subkeys) != nsub or bytes(b.k) != before:
+                self.problems.append('the refused addition of a locked subkey changed the key (%d -> %d subkeys)' % (nsub, len(b.k.subkeys)))
+                for kid in [k for k, v in b.k._children.items() if v is locked]:
+                    del b.k._children[kid]          # (keep the model and the key in step for the rest of the history)
         elif op == 'recert':
             l = self.pick(b.uids, 'recert')
             b.recert(l, t, flags=self.cyc(FLAGSETS, 'fl'), prefs=self.cyc(PREFSETS, 'pr'),
